@@ -12,5 +12,5 @@ for sid in sorted(os.listdir(os.path.join(ROOT, 'seeded'))):
                        for k, v in sorted(m.get('caught_by', {}).items())) or '-'
     extra = m.get('strengthening', '')
     def cell(x, n): return str(x).replace('|', '/').replace('\n', ' ')[:n]
-    print('| %s | %s | %s | %s | %s%s |' % (sid, cell(m.get('summary', ''), 230), cell(m.get('needs_to_manifest', ''), 170), conf, caught,
+    print('| %s | %s | %s | %s | %s%s |' % (sid, cell(m.get('summary', ''), 170), cell(m.get('needs_to_manifest', ''), 120), conf, caught,
                                           (' (' + extra + ')') if extra else ''))
